@@ -10,6 +10,8 @@ import (
 	"slices"
 	"sort"
 	"strings"
+	"sync"
+	"sync/atomic"
 
 	"github.com/c2FmZQ/ech/dns"
 	"golang.org/x/net/dns/dnsmessage"
@@ -794,6 +796,29 @@ func Run(r *ev.Run) {
 		}
 	}
 
+	// ---- B5' the header bits this package has no field for - AD and CD (RFC 4035), set by validating resolvers and by stub
+	// resolvers that ask for them: a response or query carrying them decodes like the same message without them ----
+	{
+		base := []byte{0, 9, 0x81, 0x80, 0, 1, 0, 1, 0, 0, 0, 0, 1, 'o', 7, 'e', 'x', 'a', 'm', 'p', 'l', 'e', 0, 0, 1, 0, 1,
+			0xc0, 12, 0, 1, 0, 1, 0, 0, 0, 60, 0, 4, 10, 0, 0, 1}
+		plain, err := dns.DecodeMessage(base)
+		if err != nil {
+			ev.ToolError("c13: %v", err)
+		}
+		for _, flags := range []uint16{0x81a0, 0x8190, 0x81b0, 0x0120, 0x0110} {
+			m := slices.Clone(base)
+			m[2], m[3] = byte(flags>>8), byte(flags)
+			_, refErr := dnsref.Decode(m)
+			dec, err := dns.DecodeMessage(m)
+			oc := "ad-cd-bits-accepted"
+			if refErr == nil && (err != nil || len(dec.Answer) != len(plain.Answer) || len(dec.Question) != 1 || dec.Question[0].Name != plain.Question[0].Name) {
+				oc = "ad-cd-bits-REFUSED"
+				r.Violation("decode-rejects-valid:ad-cd-bits", fmt.Sprintf("a message with header flags %#04x (AD/CD set, as a validating resolver sends them) does not decode like the same message with 0x8180: %v", flags, err), fmt.Sprintf("%x", m))
+			}
+			r.Eval(fmt.Sprintf("adcd:%04x", flags), oc)
+		}
+	}
+
 	// ---- B6 what Bytes returned stays what it was: the encoding of one record must not change when another one is encoded ----
 	{
 		pool := []dns.RR{
@@ -817,6 +842,50 @@ func Run(r *ev.Run) {
 				r.Eval(fmt.Sprintf("rrbytes:%d:%d", i, j), oc)
 			}
 		}
+	}
+
+	// ---- B7 SUPPLEMENTARY (free-running goroutines: a sample of schedules, reported separately): encoding and decoding are pure;
+	// eight goroutines working on DIFFERENT messages whose names need escaping get what a sequential call gets ----
+	{
+		const workers, iters = 8, 3000
+		var msgs []dns.Message
+		var wires [][]byte
+		for w := 0; w < workers; w++ {
+			name := fmt.Sprintf("w%d\\.%s.l%d\\\\x.example", w, strings.Repeat(string(rune('a'+w)), 5+w), w)
+			m := dns.Message{ID: uint16(w), RD: 1, Question: []dns.Question{{Name: name, Type: 65, Class: 1}},
+				Answer: []dns.RR{{Name: name, Type: 5, Class: 1, TTL: 60, Data: fmt.Sprintf("t%d\\.target.example", w)}}}
+			msgs, wires = append(msgs, m), append(wires, m.Bytes())
+			if dec, err := dns.DecodeMessage(wires[w]); err != nil || dec.Question[0].Name != name {
+				ev.ToolError("c13: concurrent family: message %d does not round-trip sequentially (%v)", w, err)
+			}
+		}
+		var wg sync.WaitGroup
+		var bad atomic.Int64
+		var firstBad atomic.Value
+		for w := 0; w < workers; w++ {
+			wg.Add(1)
+			go func(w int) {
+				defer wg.Done()
+				for i := 0; i < iters; i++ {
+					enc := msgs[w].Bytes()
+					dec, err := dns.DecodeMessage(wires[w])
+					if !bytes.Equal(enc, wires[w]) || err != nil || dec.Question[0].Name != msgs[w].Question[0].Name {
+						if bad.Add(1) == 1 {
+							firstBad.Store(fmt.Sprintf("goroutine %d, iteration %d: Bytes() equal=%v, decode err=%v", w, i, bytes.Equal(enc, wires[w]), err))
+						}
+						return
+					}
+				}
+			}(w)
+		}
+		wg.Wait()
+		oc := "concurrent-codec-calls-agree"
+		if bad.Load() > 0 {
+			oc = "concurrent-codec-calls-DISAGREE"
+			r.Violation("concurrent-use:codec-result-differs", "eight goroutines encoding and decoding DIFFERENT messages at the same time: "+firstBad.Load().(string), nil)
+		}
+		r.Eval("concurrent-codec", oc)
+		r.Set("supplementary_concurrent_calls", workers*iters*2)
 	}
 
 	// ---- C extended RCODE ----
